@@ -12,7 +12,7 @@ import copy
 import numpy as np
 
 from ..core import (Violation, Reject, HarnessError, np_rng, elem_arrays,
-                    fill_garbage)
+                    fill_garbage, guarded_layout)
 from .. import seams
 from .. import spaces as SP
 
@@ -152,15 +152,7 @@ class Store(object):
 
 
 def _layout(vals, lay):
-    if lay == 'F':
-        return np.array(vals, order='F', copy=True)
-    if lay == 'strided':
-        big = np.zeros(vals.shape[:-1] + (2 * vals.shape[-1] + 1,),
-                       dtype=vals.dtype)
-        view = big[..., 1::2]
-        view[...] = vals
-        return view
-    return np.array(vals, order='C', copy=True)
+    return guarded_layout(vals, lay)
 
 
 def _build_space(sp):
